@@ -129,9 +129,11 @@ Definition convert (leaf : bt) (x : list N) : value :=
   end.
 
 (* ---- `Model: v*=T;` : ZeroOrMore of (skip whitespace; match T) then EOF after whitespace *)
+Definition is_ws (c : N) : bool := existsb (N.eqb c) src_ws.
+
 Fixpoint skip_ws (pre rest : list N) : list N * list N :=
   match rest with
-  | c :: rest' => if existsb (N.eqb c) src_ws then skip_ws (c :: pre) rest' else (pre, rest)
+  | c :: rest' => if is_ws c then skip_ws (c :: pre) rest' else (pre, rest)
   | [] => (pre, rest)
   end.
 
